@@ -250,6 +250,106 @@ theorem alpha_range (l : Dist) (alpha : Rat) :
   unfold expectationWithOperator expectationWithBitstrings
   constructor <;> (split <;> simp_all <;> split <;> simp)
 
+/-! ## The branch `isclose(alpha, 1)` (α = 1 and α within 1e-5 of 1) -/
+
+/-- the greedy fill is Lipschitz in the mass: `|greedy l b − greedy l a| ≤ (b − a)·max|v|` -/
+theorem greedy_lipschitz (M : Rat) (hM0 : 0 ≤ M) : ∀ (l : Dist) (a b : Rat), NonnegProbs l → (∀ x ∈ l, rabs x.2 ≤ M) →
+    0 ≤ a → a ≤ b → rabs (greedy l b - greedy l a) ≤ (b - a) * M
+  | [], a, b, _, _, _, hab => by
+      simp only [greedy]
+      have h0 : rabs (0 - 0) = 0 := by unfold rabs; split <;> grind
+      have := Rat.mul_nonneg (by grind : 0 ≤ b - a) hM0
+      grind
+  | (p, v) :: t, a, b, hn, hM, ha, hab => by
+      have hp : 0 ≤ p := hn (p, v) (by simp)
+      have hnt : NonnegProbs t := fun x hx => hn x (List.mem_cons_of_mem _ hx)
+      have hMt : ∀ x ∈ t, rabs x.2 ≤ M := fun x hx => hM x (List.mem_cons_of_mem _ hx)
+      have hv : rabs v ≤ M := hM (p, v) (by simp)
+      simp only [greedy]
+      have hq : min a p ≤ min b p := by grind
+      have hra : 0 ≤ a - min a p := by grind
+      have hrab : a - min a p ≤ b - min b p := by grind
+      have ih := greedy_lipschitz M hM0 t (a - min a p) (b - min b p) hnt hMt hra hrab
+      have e : min b p * v + greedy t (b - min b p) - (min a p * v + greedy t (a - min a p)) =
+          (min b p - min a p) * v + (greedy t (b - min b p) - greedy t (a - min a p)) := by grind
+      rw [e]
+      have t1 := rabs_add_le ((min b p - min a p) * v) (greedy t (b - min b p) - greedy t (a - min a p))
+      have t2 := rabs_mul_nonneg (min b p - min a p) v (by grind)
+      have t3 : (min b p - min a p) * rabs v ≤ (min b p - min a p) * M := Rat.mul_le_mul_of_nonneg_left hv (by grind)
+      grind
+
+/-- **α = 1, operator path**: the plain expectation, exactly -/
+theorem operator_alpha_one (l : Dist) : expectationWithOperator l 1 = .ok (plainExpectation l) := by
+  unfold expectationWithOperator
+  have h1 : ((1 : Rat) ≤ 0 ∨ (1 : Rat) < 1) = False := by
+    apply propext; constructor
+    · intro h; revert h; decide +kernel
+    · intro h; exact h.elim
+  have h2 : isclose 1 1 = true := by decide +kernel
+  simp only [h1, h2, ↓reduceIte]
+
+/-- **α = 1, bitstring-function path**: the loop runs in dictionary order and stops once the gathered mass is within
+`isclose` of 1; the result is within `(1e-8 + 1e-5)·max|v|` of the plain expectation -/
+theorem bitstring_alpha_one (l : Dist) (M : Rat) (hn : NonnegProbs l) (hmass : mass l = 1) (hM0 : 0 ≤ M)
+    (hM : ∀ x ∈ l, rabs x.2 ≤ M) : rabs (getExpectation l 1 - plainExpectation l) ≤ (atol + rtol) * M := by
+  unfold getExpectation
+  have h2 : isclose 1 1 = true := by decide +kernel
+  simp only [h2, Bool.not_true, Bool.false_eq_true, ↓reduceIte]
+  have h := loop_close_to_greedy 1 M hM0 l 0 0 hn hM (by decide +kernel)
+  have e1 : (0 : Rat) + greedy l (1 - 0) = plainExpectation l := by
+    have : (1 : Rat) - 0 = 1 := by grind
+    rw [this, greedy_full l 1 hn (by rw [hmass]; exact Rat.le_refl)]
+    grind
+  rw [e1] at h
+  have e2 : rabs (1 : Rat) = 1 := by decide +kernel
+  rw [e2] at h
+  have e3 : loop 1 l 0 0 / 1 = loop 1 l 0 0 := by rw [Rat.div_def]; have : (1 : Rat)⁻¹ = 1 := by decide +kernel
+                                                  rw [this]; grind
+  rw [e3]
+  grind
+
+/-- **α within `isclose` of 1, operator path**: the plain expectation is returned; it differs from the exact CVaR at α
+by at most `2·(1 − α)·max|v|` (≤ 2.002e-5·max|v|) -/
+theorem near_one_operator (l : Dist) (alpha M : Rat) (hn : NonnegProbs l) (hmass : mass l = 1) (hM0 : 0 ≤ M)
+    (hM : ∀ x ∈ l, rabs x.2 ≤ M) (h0 : 0 < alpha) (h1 : alpha ≤ 1) (hclose : isclose alpha 1 = true) :
+    expectationWithOperator l alpha = .ok (plainExpectation l) ∧
+    rabs (plainExpectation l - cvarExact l alpha) ≤ 2 * (1 - alpha) * M := by
+  constructor
+  · unfold expectationWithOperator
+    have : ¬ (alpha ≤ 0 ∨ 1 < alpha) := by grind
+    simp [this, hclose]
+  · unfold cvarExact
+    have hperm := sortByValue_perm l
+    have hn' := nonneg_perm hperm.symm hn
+    have hM' : ∀ x ∈ sortByValue l, rabs x.2 ≤ M := fun x hx => hM x (hperm.mem_iff.mp hx)
+    have hG1 : greedy (sortByValue l) 1 = plainExpectation l := by
+      rw [greedy_full _ 1 hn' (by rw [mass_perm hperm, hmass]; exact Rat.le_refl), plainExpectation_perm hperm]
+    have hlip := greedy_lipschitz M hM0 (sortByValue l) alpha 1 hn' hM' (by grind) h1
+    rw [hG1] at hlip
+    have habs := greedy_abs_le M (sortByValue l) alpha hn' hM' (by grind) hM0
+    generalize greedy (sortByValue l) alpha = Ga at hlip habs ⊢
+    generalize plainExpectation l = P at hlip ⊢
+    -- P − Ga/α = c·(α·(P − Ga) − (1 − α)·Ga) with c = 1/α
+    have hc : 0 < alpha⁻¹ := Rat.inv_pos.mpr h0
+    have hca : alpha * alpha⁻¹ = 1 := Rat.mul_inv_cancel _ (by grind)
+    rw [Rat.div_def]
+    have e : P - Ga * alpha⁻¹ = alpha⁻¹ * (alpha * (P - Ga) + (-(1 - alpha)) * Ga) := by grind
+    rw [e, rabs_mul_nonneg _ _ (by grind)]
+    have t1 := rabs_add_le (alpha * (P - Ga)) ((-(1 - alpha)) * Ga)
+    have t2 := rabs_mul_nonneg alpha (P - Ga) (by grind)
+    have t3 : rabs ((-(1 - alpha)) * Ga) = (1 - alpha) * rabs Ga := by
+      have : (-(1 - alpha)) * Ga = -((1 - alpha) * Ga) := by grind
+      rw [this, rabs_neg, rabs_mul_nonneg _ _ (by grind)]
+    have t4 : alpha * rabs (P - Ga) ≤ alpha * ((1 - alpha) * M) := Rat.mul_le_mul_of_nonneg_left hlip (by grind)
+    have t5 : (1 - alpha) * rabs Ga ≤ (1 - alpha) * (alpha * M) := Rat.mul_le_mul_of_nonneg_left habs (by grind)
+    have t6 : rabs (alpha * (P - Ga) + (-(1 - alpha)) * Ga) ≤ alpha * (2 * (1 - alpha) * M) := by grind
+    have t7 := Rat.mul_le_mul_of_nonneg_left t6 (by grind : 0 ≤ alpha⁻¹)
+    have e2 : alpha⁻¹ * (alpha * (2 * (1 - alpha) * M)) = 2 * (1 - alpha) * M := by
+      have : alpha⁻¹ * (alpha * (2 * (1 - alpha) * M)) = (alpha * alpha⁻¹) * (2 * (1 - alpha) * M) := by grind
+      rw [this, hca]; grind
+    rw [e2] at t7
+    exact t7
+
 /-! ## Non-vacuity -/
 
 /-- 4 shots: values −2 (1 shot), 0 (2 shots), 3 (1 shot) -/
